@@ -562,12 +562,15 @@ func (s *Sched) OnceDo(o *sync.Once, f func()) {
 		t.wantKey = nil
 	}
 	s.rec(o).owner = t
-	defer func() {
-		if !s.aborted {
-			s.rec(o).owner = nil
-		}
-	}()
+	defer s.onceRelease(o) // (a method, not a closure: the pragma does not reach into closures)
 	o.Do(f)
+}
+
+//go:norace
+func (s *Sched) onceRelease(o *sync.Once) {
+	if !s.aborted {
+		s.rec(o).owner = nil
+	}
 }
 
 // GoForeign: this engine's tables belong to the one task that is running; a goroutine
